@@ -24,6 +24,9 @@ PY
 )
 echo "demo compile: $CMD"
 run_demo() {
+  if [ -f $O/demo.sh ]; then   # scripted demo: demo.sh <worktree>
+    ( cd $O; timeout 1800 bash ./demo.sh $W > $O/demo_out.txt 2>&1 ); rc=$?; tail -2 $O/demo_out.txt; return $rc
+  fi
   ( cd $O; R=$W NFL=$W ROOT=$W WT=$W S=$W W=$W bash -c "$CMD" 2>$O/demo_build.log ) || { echo "demo build failed"; tail -3 $O/demo_build.log; return 99; }
   timeout 900 $O/demo_bin > $O/demo_out.txt 2>&1; rc=$?; tail -2 $O/demo_out.txt; return $rc
 }
